@@ -6,7 +6,7 @@
 (* the declared tolerance plus the measurement slack, added in Go.         *)
 (*                                                                         *)
 (* tess  mode ("projected" | "unprojected"), maxd (largest distance of a   *)
-(*       vertex / sampled point from the input edge), thr, endd (distance  *)
+(*       vertex / sampled point from the input edge), thr, thr2, endd (distance *)
 (*       of the chain's end points from the input's end points), ethr,     *)
 (*       maxdx, halfwrap (planar chain: largest |dx| between neighbours),  *)
 (*       nv (number of vertices)                                           *)
@@ -36,7 +36,9 @@ Next == /\ l.i = 0
 If(c, name) == IF c THEN {name} ELSE {}
 
 TessRej(e) ==
-    If(~FLeq(e.maxd, e.thr), "tessellation-tolerance")
+    \* thr2 = 1.2 x tolerance: names the magnitude class of a rejection (the verdict uses thr)
+    If(~FLeq(e.maxd, e.thr) /\ FLeq(e.maxd, e.thr2), "tessellation-tolerance-within-1.2x")
+    \cup If(~FLeq(e.maxd, e.thr2), "tessellation-tolerance")
     \cup If(~FLeq(e.endd, e.ethr), "tessellation-endpoints")
     \cup If(~FLeq(e.maxdx, e.halfwrap), "tessellation-wrap")
     \cup If(e.nv < 2, "tessellation-empty")
